@@ -17,7 +17,7 @@ tests=$(grep -o '^func Test[A-Za-z0-9_]*' $demo | awk '{print $2}' | paste -sd'|
 echo "seed $id: demo $demo -> $dir, tests: $tests" >> $out
 go build ./... >> $out 2>&1 || { echo "BUILD FAILED" >> $out; exit 1; }
 echo "--- suite with the change" >> $out
-go test -vet=off -count=1 -timeout 25m ./... > /var/tmp/seedsuite-$id.log 2>&1
+/verif/tools/netns.sh go test -vet=off -count=1 -timeout 25m ./... > /var/tmp/seedsuite-$id.log 2>&1
 echo "suite exit=$? ; failing tests: $(grep -- '--- FAIL' /var/tmp/seedsuite-$id.log | awk '{print $3}' | paste -sd' ')" >> $out
 cp $demo $dir/zz_seed_demo_test.go
 echo "--- demo WITH the change (must fail)" >> $out
